@@ -83,7 +83,8 @@ theorem slack_settle (c : Conn) (tag : String) (sid : Nat) (err : Option Err) (e
   · exact slack_finish _ _ _ _
 
 theorem slack_dispatch (c : Conn) (f : Frame.Frame) : SlackLe c (dispatch c f).1 := by
-  rw [dispatch_eq]
+  obtain ⟨skd, skb, ske, hsk⟩ := skipHeaders_shape c f
+  rw [dispatch_eq, hsk]
   split
   · exact SlackLe.refl c
   · split
